@@ -156,6 +156,10 @@ func (e *EDNS) ServeDNS(ctx context.Context, ch *middleware.Chain) {
 	if opt.Version() != 0 {
 		ednsErrorBadVersion.Inc()
 		opt.SetVersion(0)
+		// SetEdns0 has already put the subnet meant for upstream on this
+		// OPT, and the BADVERS reply is built from it. That reply goes to
+		// the client, which is never handed a client-subnet option.
+		opt.Option = stripECS(opt.Option)
 
 		ch.CancelWithRcode(dns.RcodeBadVers, do)
 
